@@ -45,7 +45,8 @@ fn search(check_loc: bool) {
     std::panic::set_hook(Box::new(|_| {}));
     let mut n = 0;
     let mut bad: Vec<String> = Vec::new();
-    let prefixes = ["", "(define other 1)\n", "; a comment\n\n(define other\n   1)\n"];
+    // (the last two leave the faulting form starting in the middle of a line: its continuation lines have SMALLER columns)
+    let prefixes = ["", "(define other 1)\n", "; a comment\n\n(define other\n   1)\n", "      ", "(define other 1)   "];
     let gaps = ["", " ", "\n", "  \n   ", " ; c\n ", "\n\n\t"];
     // contexts in which the faulting expression FAULT is evaluated by eval_expression (never in tail position of a user procedure)
     let contexts = ["FAULT", "(car (cons FAULT 2))", "(define r FAULT)", "(if FAULT 1 2)", "(vector 1 FAULT)"];
@@ -125,5 +126,16 @@ fn verif_native_template_location_known() {
     match got {
         Ok((kind, loc)) if inside(loc) => println!("VERIF-NATIVE: ok a {} error inside a top-level let is located at {:?}, inside the form (lines 13-14)", kind, loc),
         other => println!("VERIF-NATIVE: disagree a failing call inside a top-level let on lines 13-14 of the program is reported as {:?}: the location is that of the let TEMPLATE in the bundled grammar.sld", other),
+    }
+}
+
+#[test]
+fn verif_native_callee_location_known() {
+    // KNOWN FINDING callee-body-location: a fault inside the body of a procedure defined in an EARLIER top-level form is located
+    // at the offending identifier in THAT form, not inside the top-level form whose evaluation failed (the call)
+    let program = "(define (f) nope)\n(f)";
+    match run(program) {
+        Ok((kind, loc)) if loc.map(|l| l[0] == 2).unwrap_or(false) => println!("VERIF-NATIVE: ok the {} error of (f) on line 2 is located at {:?}, inside the failing form", kind, loc),
+        other => println!("VERIF-NATIVE: disagree (define (f) nope) on line 1, the failing form (f) on line 2: the error is reported as {:?}, i.e. inside the definition, another top-level form", other),
     }
 }
